@@ -207,7 +207,7 @@ def parseDimensions (fuel : Nat) : P (List Expr) := do
     expectTok .BY ["BY"]
     dimLoop fuel (← loopFuel) []
 
-/-- `Parser.parseFill()`. The option words are recognised by the *printed* form of the argument. -/
+/-- `Parser.parseFill()`. -/
 def parseFill (fuel : Nat) : P (FillOption × FillValue) := do
   let lx ← scanIW
   unscan
@@ -217,7 +217,10 @@ def parseFill (fuel : Nat) : P (FillOption × FillValue) := do
     let e ← parseExpr fuel
     match e with
     | .call _ [a] =>
-      let p := a.print
+      -- only a `*VarRef` is printed (the option words are recognised by its *printed* form)
+      let p := match a with
+        | .varRef _ _ => a.print
+        | _ => []
       if p = "null".toList then pure (.null, .none)
       else if p = "none".toList then pure (.none, .none)
       else if p = "previous".toList then pure (.previous, .none)
